@@ -19,6 +19,7 @@ import MW.Lemmas.TxmgrCodecRec
 import MW.Lemmas.RemoveReach2
 import MW.Lemmas.RemoveMidCex
 import MW.Lemmas.RemoveInterleave2Ex
+import MW.Lemmas.RemoveInterleave3Ex
 import MW.Lemmas.RemoveJoinEx
 import MW.Lemmas.RemoveFlaggedEx
 import MW.Lemmas.RemoveSimEx
@@ -902,6 +903,43 @@ theorem remove_after_follower_projects {limit : Nat} {c : Ctx} {w : Wid} {addrs 
     (hrun : irun limit c w addrs x0 evs = some x) (hfin : x.fin = true) (hws : ∀ y ∈ ws', y ∈ c.wallets) :
     Inv { c with own := own', wallets := ws', node := x.node } x.s x.node.chain :=
   MW.Lemmas.RemoveInterleave.remove_after_follower_projects hP hS hD hrun hfin hws
+
+/-- **remove_interleaved_ext.**  THE POSITIVE INTERLEAVING THEOREM: histories inside `DomB` — tip notifications for ANY
+    announced node state (extensions, reorganisations of any depth) before the first removal step, EXTENSIONS of the stored
+    chain between the removal steps, unconfirmed transactions and restarts anywhere, any number of removal steps of any
+    size — that end with the finishing step leave C01's invariant for the table without `w`, on the chain the follower
+    was last told about.  What `DomB` excludes is exactly the counterexample's shape: a REORGANISATION between two removal
+    steps (`remove_interleaved_projects_literal_false`).  Proof: a ghost store (the store without the removal steps so
+    far) keeps C07's joined-store invariant under the new block (`connect_scanJS'`); `filterBlock` on the real store
+    SIMULATES `filterBlock` on the ghost (`MW.Lemmas.RemoveSim.filterBlock_sim`: same relevance records, same writes, the
+    records of `w` that are missing are never read); the in-progress invariant is rebuilt for the longer chain. -/
+theorem remove_interleaved_ext {limit : Nat} {c : Ctx} {w : Wid} {addrs : List Addr} {own' : Own} {G : Block}
+    {x0 x : ISt} {evs : List IEv} {ws' : List Wid}
+    (hP : Phase1 c w G x0) (hS : Static c w addrs own') (hD : DomB limit c w addrs G false x0 evs)
+    (hrun : irun limit c w addrs x0 evs = some x) (hfin : x.fin = true) (hws : ∀ y ∈ ws', y ∈ c.wallets) :
+    Inv { c with own := own', wallets := ws', node := x.node } x.s x.node.chain :=
+  MW.Lemmas.RemoveInterleave.remove_interleaved_ext hP hS hD hrun hfin hws
+
+/-- **remove_connect_simulation** — the structural heart of the extension step, for ARBITRARY stores: if `filterBlock`
+    succeeds on a store `g`, it succeeds with the same confirmed ids on every store `s` that is `g` minus records of
+    script hashes no ready wallet owns (`Sub`), and the results are related in the same way (`NewEq`: the new block's
+    records agree key by key; frame clauses for the old keys). -/
+theorem remove_connect_simulation {addrs : List Addr} {ready : List Wid} {c : Ctx} {g s g' : Store} {b : Block}
+    {conf : List TxId} (hSub : Sub addrs g s) (hng : KeysNodup g.credits) (hns : KeysNodup s.credits)
+    (hF : Fresh ⟨b.height, b.id⟩ g) (hFs : AMap.get s.blocks b.height = none) (hC : CoinsOK addrs ready g)
+    (hfind : ∀ id, existCreditFromTx g id = true → (c.node.fetchTx id).isSome = true)
+    (hown : ∀ (id : TxId) (pt : Tx) (idx : Nat) (o : Out) (w' : Wid) (ch : Bool), existCreditFromTx g id = true →
+      existCreditFromTx s id = false → c.node.fetchTx id = some pt → pt.outs[idx]? = some o → o.cls ≠ .raw →
+      AMap.get c.own o.addr = some (w', ch) → ready.contains w' = false)
+    (hrel : ∀ a w' ch, AMap.get c.own a = some (w', ch) → ready.contains w' = true → addrs.contains a = false)
+    (hg : filterBlock c g ready b = .ok (g', conf)) :
+    ∃ s', filterBlock c s ready b = .ok (s', conf) ∧ Sub addrs g' s' ∧ NewEq ⟨b.height, b.id⟩ g' s' := by
+  obtain ⟨s', h1, h2, h3, _⟩ := filterBlock_sim hSub hng hns hF hFs hC hfind hown hrel hg
+  exact ⟨s', h1, h2, h3⟩
+
+/-- non-vacuity of `remove_interleaved_ext`: reorganisation, step, a NEW BLOCK in which W1 spends and is paid, step -/
+example : (irun 1 MW.Lemmas.RemoveMidCex.ctx "W2" ["A2"] MW.Lemmas.RemoveMidCex.x0
+    MW.Lemmas.RemoveInterleave3Ex.evsD).isSome = true := MW.Lemmas.RemoveInterleave3Ex.runD_some
 
 /-- the hypotheses of the full statement (plus: the flagged wallet's balance entry is still its ledger total, some
     wallet is ready) give the start invariant `Phase1` -/
